@@ -169,6 +169,21 @@ CLAIMED['C13'] = (
     'of scalar component objects (re-assigning .value of a shared default component) is not looked at, only shared '
     'containers; (c) and the ceiling case are fork-exhaustive / native, with nothing for the solver to decide', '5 C13')
 
+CLAIMED['C14'] = (
+    'the recursion json.dumps performs - JSON-native values as they are, everything else through the encoder hook the '
+    'library installs (Serializable._json_traverse + _json_result), applied again to its result - is run on the real '
+    'code and must end in a value closed under JSON types; as_markdown / _markdown_result must return str; both must be '
+    'identical for the object and for parse(compose(object)). Objects: (a) parsed from an accepted vector with one '
+    'symbolic byte, every seeded class; (b) built by the real constructors from symbolic integers, enum indices and '
+    'opaque bytes; (c) a MySQL handshake whose set-valued field is filled in two insertion orders with a symbolic '
+    'member. Natively: real json.dumps/json.loads in every replay and differential run, every member of every enum '
+    'class, all ordered member triples of the set-valued fields, and 3 serialisation orders x 4 PYTHONHASHSEED values '
+    'in fresh interpreters over the seed objects',
+    'single-byte windows and the listed constructors (quick: one rotated position per class, 6 rotated constructors); '
+    'json.dumps itself is not executed symbolically (CrossHair models json without the patched default hook): its '
+    'recursion is restated in 20 lines (_tree) and compared with the real json.dumps natively; X7 recompiles three '
+    'Serializable functions with hasattr(x, "__dict__") answered as the native value would', '5 C14')
+
 NOT_APPLICABLE = {
     'C19': 'asymptotic claim (work linear in input size for n, 2n, 4n, ...): a bounded symbolic execution fixes the '
            'input size, so a pass says nothing about growth; the total-work bound needs an amortised argument over '
